@@ -20,3 +20,7 @@ LEVEL_TEXT = ("Lean 4 theorems over BitVec 64 (all 2^64 values, all intervals) a
 LEVEL_NOTE = ("trusted: Lean kernel + propext/Classical.choice/Quot.sound; the hand-written model Bluge.Numeric and the "
               "correspondence harness go/harness/c10; BitVec 64 as the semantics of Go int64/uint64")
 TECHNIQUE = "Lean 4 proof (BitVec 64) + differential correspondence run against the real numeric package"
+
+# modules whose theorems are audited and counted as obligations (bridge Gen <-> reference, property theorems)
+AUDIT_MODULES = ["BlugeProofs.C10", "BlugeProofs.C10.Bridge"]
+LAKE_TARGETS = ["BlugeProofs.C10", "BlugeProofs.C10.Bridge", "drv_c10"]
